@@ -13,9 +13,10 @@ import (
 )
 
 // A fixture is /verif/mutants/<prop>/<name>.patch. Leading comment lines:
-//   # kind: broken|benign
-//   # expect: <substring of "RULE construct"> (broken only; may repeat)
-//   # why: free text
+//
+//	# kind: broken|benign
+//	# expect: <substring of "RULE construct"> (broken only; may repeat)
+//	# why: free text
 type fixture struct {
 	Name   string
 	Path   string
